@@ -113,6 +113,7 @@ impl Profile {
                 (3, Kind::P),
                 (4, Kind::DB),
                 (3, Kind::NT),
+                (4, Kind::HSl),
                 (5, Kind::Set),
             ],
             neg_adjust: true,
